@@ -143,43 +143,50 @@ def gen(outdir):
     print(len(index), "mutants")
 
 
+import queue
+WT_POOL: "queue.Queue[str]" = queue.Queue()
+
+
 def run_one(args):
     outdir, m = args
-    tmp = tempfile.mkdtemp(prefix="mut_")
+    wt = WT_POOL.get()
     try:
-        shutil.copytree("/repo/src", tmp + "/src")
-        shutil.copytree("/repo/test", tmp + "/test")
-        for f in ("setup.py", "setup.cfg", "README.md", "pyproject.toml", "CHANGELOG.md", "fixtures"):
-            p = os.path.join("/repo", f)
-            if os.path.isdir(p):
-                shutil.copytree(p, os.path.join(tmp, f))
-            elif os.path.exists(p):
-                shutil.copy(p, tmp)
-        r = sp.run(["patch", "-p1", "-s", "-i", os.path.join(outdir, m["id"] + ".diff")], cwd=tmp, capture_output=True, text=True)
+        sp.run("git checkout -q -- . && git clean -fdq", shell=True, cwd=wt)
+        r = sp.run(["git", "apply", os.path.join(outdir, m["id"] + ".diff")], cwd=wt, capture_output=True, text=True)
         if r.returncode:
-            return dict(m, status="patch-failed")
-        env = dict(os.environ, PYTHONPATH=tmp + "/src", PYTHONDONTWRITEBYTECODE="1")
-        r = sp.run("/venv/bin/python -m pytest -q -p no:cacheprovider --timeout=300 --continue-on-collection-errors 2>&1 | tail -1",
-                   shell=True, cwd=tmp, capture_output=True, text=True, env=env, timeout=1800)
+            return dict(m, status="patch-failed", detail=r.stderr[:100])
+        env = dict(os.environ, PYTHONPATH=wt + "/src", PYTHONDONTWRITEBYTECODE="1")
+        try:
+            r = sp.run("/venv/bin/python -m pytest -q -p no:cacheprovider --timeout=60 --continue-on-collection-errors 2>&1 | tail -1",
+                       shell=True, cwd=wt, capture_output=True, text=True, env=env, timeout=900)
+        except sp.TimeoutExpired:
+            return dict(m, status="killed", suite="timeout")
         tail = r.stdout.strip()
         if "500 passed" not in tail or "25 failed" not in tail:
             return dict(m, status="killed", suite=tail[-80:])
         fired = {}
         for i in range(1, 21):
             c = f"C{i:02d}"
-            rr = sp.run(["/verif/check", c, "--repo", tmp, "--no-evidence"], capture_output=True, text=True)
+            rr = sp.run(["/verif/check", c, "--repo", wt, "--no-evidence"], capture_output=True, text=True)
             if rr.returncode:
                 fired[c] = rr.returncode
         return dict(m, status="survived", checks=fired)
     except Exception as ex:
         return dict(m, status="error", detail=str(ex)[:200])
     finally:
-        shutil.rmtree(tmp, ignore_errors=True)
+        sp.run("git checkout -q -- . && git clean -fdq", shell=True, cwd=wt)
+        WT_POOL.put(wt)
 
 
 def run(outdir, jobs):
     index = json.load(open(os.path.join(outdir, "index.json")))
     res = []
+    os.makedirs("/tmp/mutwt", exist_ok=True)
+    for k in range(jobs):
+        wt = f"/tmp/mutwt/{k}"
+        if not os.path.isdir(wt):
+            sp.run(["git", "-C", "/repo", "worktree", "add", "--detach", wt, "HEAD", "-q"], check=True)
+        WT_POOL.put(wt)
     with ThreadPoolExecutor(jobs) as ex:
         for k, r in enumerate(ex.map(run_one, [(outdir, m) for m in index])):
             res.append(r)
